@@ -40,6 +40,9 @@ type Result struct {
 	Sample    interface{}    // JSON-able description of the case (kept for a few runs)
 	Digest    uint64         // digest of the complete event log (determinism self-test)
 	Events    int            // number of logged events
+	// Abandoned is set when the run left a goroutine of the code under test spinning (non-termination);
+	// the worker stops exploring after such a run.
+	Abandoned bool
 }
 
 // NewResult returns an empty result.
